@@ -871,10 +871,20 @@ pub async fn device_snapshot(account: &LocalAccount) -> Result<Value, Failure> {
 // Stubs filled in by the property modules
 // ---------------------------------------------------------------------------
 
-pub fn run_c02_sync(_shard: &Shard, _rep: &mut Report) {}
+pub fn run_c02_sync(shard: &Shard, rep: &mut Report) {
+    crate::prop_merge::run_sync_subcheck(shard, rep, crate::prop_merge::Mode::Replay);
+}
 
-pub fn replay_c02_sync(_shard: &Shard, _case: &Value) -> CheckResult {
-    Ok(())
+pub fn replay_c02_sync(_shard: &Shard, case: &Value) -> CheckResult {
+    crate::prop_merge::replay_sync_subcheck(case, crate::prop_merge::Mode::Replay)
+}
+
+pub fn run_c20_sync(shard: &Shard, rep: &mut Report) {
+    crate::prop_merge::run_sync_subcheck(shard, rep, crate::prop_merge::Mode::Search);
+}
+
+pub fn replay_c20_sync(_shard: &Shard, case: &Value) -> CheckResult {
+    crate::prop_merge::replay_sync_subcheck(case, crate::prop_merge::Mode::Search)
 }
 
 #[allow(dead_code)]
